@@ -673,6 +673,13 @@ func calculateTextEditRange(content string, pos protocol.Position, ctxType Compl
 		return nil
 	}
 
+	// The edit replaces the typed fragment up to the cursor: its start can
+	// never lie behind the cursor (cursor inside a directive keyword, or in the
+	// blanks between an amount and its commodity).
+	if startByte > byteCol {
+		startByte = byteCol
+	}
+
 	startChar := lsputil.ByteOffsetToUTF16(line, startByte)
 	return &protocol.Range{
 		Start: protocol.Position{Line: pos.Line, Character: uint32(startChar)},
